@@ -1498,7 +1498,7 @@ def build_cases(rng, tier):
     return cases
 
 
-def run_proc(binary, text, wall, cpu=None, env=None):
+def run_proc(binary, text, wall, cpu=None, env=None, abort=None):
     """one run of a line-protocol binary: (rc, stdout lines, stderr, wall_timed_out).  communicate(timeout=..) bounds the wall
     time; cpu (seconds) is an RLIMIT_CPU on the child (CPU time does not depend on the machine load)."""
     import resource, subprocess
@@ -1510,62 +1510,154 @@ def run_proc(binary, text, wall, cpu=None, env=None):
         e.update(env)
     p = subprocess.Popen([binary], stdin=subprocess.PIPE, stdout=subprocess.PIPE, stderr=subprocess.PIPE, universal_newlines=True,
                          errors="replace", env=e, preexec_fn=pre if cpu else None)
-    try:
-        out, err = p.communicate(text, timeout=wall)
-    except subprocess.TimeoutExpired:
-        p.kill()
-        out, err = p.communicate()
-        return 124, (out or "").splitlines(), (err or "") + "[wall time-out after %ss]" % wall, True
-    return p.returncode, out.splitlines(), err, False
+    import time as _t
+    t0 = _t.time()
+    inp = text
+    while True:
+        try:
+            out, err = p.communicate(inp, timeout=0.5 if abort else wall)
+            return p.returncode, out.splitlines(), err, False
+        except subprocess.TimeoutExpired:
+            inp = None                              # the input was handed over by the first call; retrying is the documented use
+            if abort and abort():                   # the run-wide hang cap was reached by another stream: stop this one now
+                p.kill()
+                out, err = p.communicate()
+                ls = (out or "").splitlines()
+                if ls and not (out or "").endswith("\n"):
+                    ls = ls[:-1]                    # a line cut by the kill is not an output
+                return -1000, ls, (err or "") + "[stopped: run-wide hang cap]", False
+            if _t.time() - t0 >= wall:
+                p.kill()
+                out, err = p.communicate()
+                return 124, (out or "").splitlines(), (err or "") + "[wall time-out after %ss]" % wall, True
 
 
 NO_RETURN = "DOES-NOT-RETURN"
 WD = ("c06_watchdog.h",)       # header shared by the three harness sources (part of their build hash)
 
 
+import threading
+
+FIRST_BUDGET = 10       # CPU seconds per call in the streams (the operations take microseconds to milliseconds)
+CONFIRM_BUDGET = 30     # CPU seconds for the confirmation re-run of one case alone
+MAX_CONFIRM = 3         # confirmations per run
+MAX_OVERRUN = 6         # first-stage overruns per run; then the streams stop
+MAX_CRASH = 4           # crashes of one call form; then the form is not driven any more
+
+
+class HangState:
+    """shared by every stream / chunk of a run (they are threads of this process): one cap for all of them"""
+    def __init__(self):
+        self.lock = threading.Lock()
+        self.overruns = 0
+        self.confirmations = 0
+        self.confirmed = {}          # call form -> the input line confirmed not to return
+        self.confirmed_lines = set()
+        self.crashes = {}            # call form -> count
+        self.banned = set()          # call forms not driven any more in this run
+        self.stopped = False
+        self.log = []
+
+
+HANG = HangState()
+SKIPPED = "NOT-RUN-AFTER-HANG"
+
+
+def form_of(line):
+    return line.split(" ", 1)[0]
+
+
 def run_chunk(binary, lines, wall, restart=True, cpu=None):
     """run `lines` through the binary.  The C++ harness ends with status 3 after printing DOES-NOT-RETURN when a case exceeds its
-    CPU budget, and dies on a crash: in both cases the case is marked and the binary is restarted on the remaining lines.
-    Returns (outputs (one per line; MISSING where nothing was obtained), status in ok / wall-timeout / cpu-limit / failed, log)."""
-    out, log, pos, status = [], "", 0, "ok"
-    restarts = 0
-    hangs = 0
-    while pos < len(lines):
-        # after the first case over budget the rest of this chunk runs on a short budget, and after four such cases the chunk
-        # stops (the offenders are re-run alone afterwards; they are failing inputs, the verdict does not need the rest)
-        if hangs >= 4:
-            status = "hang-cap"
-            log += "four cases of this chunk did not return within their CPU budget; %d cases not run\n" % (len(lines) - pos)
-            break
-        rc, o, err, timed_out = run_proc(binary, "".join(lines[pos:]), wall, cpu=cpu, env={"C06_CPU_BUDGET": "5"} if hangs else None)
+    CPU budget (FIRST_BUDGET), and dies on a crash: the case is marked and the binary is restarted on the remaining lines.
+    Bounded cost: an overrun is confirmed at once by running that case alone with CONFIRM_BUDGET (at most MAX_CONFIRM times per
+    run); a confirmed call form is not driven any more by ANY chunk of the run; after MAX_OVERRUN overruns in the whole run the
+    streams stop.  Returns (outputs, status in ok / wall-timeout / cpu-limit / failed / hang-cap, log)."""
+    res = [None] * len(lines)
+    todo = list(range(len(lines)))
+    log, status, restarts = "", "ok", 0
+    while todo:
+        if restart:
+            with HANG.lock:
+                stop = HANG.stopped
+                banned = set(HANG.banned)
+            keep = []
+            for ix in todo:
+                if stop or form_of(lines[ix]) in banned:
+                    res[ix] = SKIPPED
+                else:
+                    keep.append(ix)
+            if len(keep) != len(todo):
+                status = "hang-cap"
+            todo = keep
+            if not todo:
+                break
+        rc, o, err, timed_out = run_proc(binary, "".join(lines[ix] for ix in todo), wall, cpu=cpu,
+                                         env={"C06_CPU_BUDGET": str(FIRST_BUDGET)} if restart else None,
+                                         abort=(lambda: HANG.stopped) if restart else None)
         o = [l for l in o if not l.startswith("#")]
+        for ix, l in zip(todo, o):
+            res[ix] = l
+        if rc == -1000:
+            for ix in todo[len(o):]:
+                res[ix] = SKIPPED
+            status = "hang-cap"
+            break
         if timed_out:
-            out += o
             status = "wall-timeout"
             log += err[-500:]
             break
-        if rc == 0 and len(o) == len(lines) - pos:
-            out += o
+        if rc == 0 and len(o) == len(todo):
             break
         if cpu and rc in (-24, -9, 137, 152):          # SIGXCPU / SIGKILL from RLIMIT_CPU
-            out += o
             status = "cpu-limit"
-            log += "stream stopped by its CPU limit of %ss after %d lines\n" % (cpu, len(out))
+            log += "stream stopped by its CPU limit of %ss\n" % cpu
             break
-        if not restart or restarts > 50 or len(o) > len(lines) - pos:
-            out += o
+        if not restart or restarts > 60 or len(o) > len(todo):
             status = "failed"
-            log += "rc=%s, %d/%d lines\n%s\n" % (rc, len(o), len(lines) - pos, err[-1500:])
+            log += "rc=%s, %d/%d lines\n%s\n" % (rc, len(o), len(todo), err[-1500:])
             break
         restarts += 1
         if rc == 3 and o and o[-1] == NO_RETURN:
-            out += o                                   # the last line belongs to the case that did not return
-            hangs += 1
+            ix = todo[len(o) - 1]                      # the last line belongs to the case that did not return
+            form = form_of(lines[ix])
+            with HANG.lock:
+                HANG.overruns += 1
+                if HANG.overruns >= MAX_OVERRUN:
+                    HANG.stopped = True
+                do_confirm = form not in HANG.banned and HANG.confirmations < MAX_CONFIRM
+                if do_confirm:
+                    HANG.confirmations += 1
+                    HANG.banned.add(form)             # not driven while (and, if confirmed, after) the confirmation runs
+            if do_confirm:
+                rc1, o1, e1, to1 = run_proc(binary, lines[ix], 600, env={"C06_CPU_BUDGET": str(CONFIRM_BUDGET)})
+                o1 = [l for l in o1 if not l.startswith("#")]
+                with HANG.lock:
+                    if not to1 and rc1 == 0 and o1 and o1[-1] != NO_RETURN:
+                        res[ix] = o1[-1]              # slow, but it returns: not a hang
+                        HANG.banned.discard(form)
+                        HANG.log.append("slow case (over %d s CPU, returned within %d s): %s" % (FIRST_BUDGET, CONFIRM_BUDGET, lines[ix][:120].strip()))
+                    elif to1:
+                        res[ix] = "MISSING"
+                        HANG.banned.discard(form)
+                        HANG.log.append("confirmation of %s timed out on the wall clock: unclassified" % form)
+                    else:
+                        HANG.confirmed[form] = lines[ix]
+                        HANG.confirmed_lines.add(lines[ix])
+                        HANG.log.append("confirmed: %s does not return within %d s CPU alone; the form is not driven any more" % (form, CONFIRM_BUDGET))
+            todo = todo[len(o):]
         else:
-            out += o + ["CRASHED(rc=%s)" % rc]         # the first case without an output line is the one that crashed
-            log += "case %d crashed the harness (rc=%s): %s\n" % (pos + len(o), rc, lines[pos + len(o)][:300].strip())
-        pos = len(out)
-    out = out[:len(lines)] + ["MISSING"] * (len(lines) - len(out))
+            ix = todo[len(o)]                          # the first case without an output line is the one that crashed
+            form = form_of(lines[ix])
+            res[ix] = "CRASHED(rc=%s)" % rc
+            log += "case crashed the harness (rc=%s): %s\n" % (rc, lines[ix][:300].strip())
+            with HANG.lock:
+                HANG.crashes[form] = HANG.crashes.get(form, 0) + 1
+                if HANG.crashes[form] >= MAX_CRASH:
+                    HANG.banned.add(form)
+                    HANG.log.append("%d crashes of %s: the form is not driven any more" % (MAX_CRASH, form))
+            todo = todo[len(o) + 1:]
+    out = [r if r is not None else "MISSING" for r in res]
     return out, status, log
 
 
@@ -1819,29 +1911,18 @@ def main(tier, replay=None):
                 chk.broke("implementation harness part %d failed" % p, err)
             for j, i in enumerate(idx[p]):
                 iout[i] = out[j]
-    # cases that exceeded the per-case CPU budget: once more, alone, with five times the budget, before they are reported
-    slow = [i for i in range(len(cases)) if iout[i] == NO_RETURN]
-    chk.cov["cases_over_cpu_budget_first_pass"] = len(slow)
-    def rerun(i):
-        v, K, a = cases[i]
-        return i, run_proc(binaries[VARIANTS[v]["part"]], line(v, K, a), 3000, env={"C06_CPU_BUDGET": "150"})
+    # cases over the CPU budget were confirmed inside the streams (run_chunk); classify what is left
     confirmed = set()
-    if slow:
-        with ThreadPoolExecutor(4) as ex:
-            for i, (rc1, o1, e1, to1) in ex.map(rerun, slow[:4]):      # at most four are re-run (150 s of CPU each, side by side)
-                v, K, a = cases[i]
-                o1 = [l for l in o1 if not l.startswith("#")]
-                if to1:
-                    iout[i] = "MISSING"
-                    inconclusive.append("re-run of %s K=%d alone timed out on the wall clock: not classified" % (v, K))
-                elif o1 and o1[-1] != NO_RETURN and rc1 == 0:
-                    iout[i] = o1[-1]
-                    chk.notes.append("slow case (over 30 s CPU, returned within 150 s): %s K=%d" % (v, K))
-                else:
-                    confirmed.add(i)
-        if not confirmed:
-            for i in slow[4:]:
-                iout[i] = "MISSING"          # nothing confirmed: the others are unclassified, not failures
+    for i in range(len(cases)):
+        if iout[i] == NO_RETURN:
+            ln = line(*cases[i])
+            if ln in HANG.confirmed_lines or form_of(ln) in HANG.confirmed:
+                confirmed.add(i)             # this input, or another input of the same call form, was confirmed alone
+            else:
+                iout[i] = "MISSING"          # over the first-stage budget, no confirmation left: unclassified, not a failure
+    chk.cov["hang_handling"] = {"first_stage_cpu_s": FIRST_BUDGET, "confirmation_cpu_s": CONFIRM_BUDGET, "overruns": HANG.overruns,
+                                "confirmations": HANG.confirmations, "forms_not_driven_any_more": sorted(HANG.banned),
+                                "cases_not_run_after_a_hang": sum(1 for x in iout if x == SKIPPED), "log": HANG.log[:20]}
     tm["implementation_run_s"] = round(_time.time() - _t0, 1)
     midx = [i for i, (v, K, a) in enumerate(cases) if VARIANTS[v]["model"] and i not in NO_MODEL]
     mout = {}
@@ -1894,14 +1975,13 @@ def main(tier, replay=None):
             chk.sample({"variant": v, "K": K, "args": [fmt_arg(x) for x in a], "impl": iout[i], "spec": exp})
         case = {"variant": v, "K": K, "args": [fmt_arg(x) for x in a]}
         bad_spec = False
-        if iout[i] == "MISSING":
+        if iout[i] == "MISSING" or iout[i] == SKIPPED:
             n_missing += 1                     # no output because of a tooling time-out: not compared, counted against the floor
             continue
         if iout[i] == NO_RETURN or (iout[i] or "").startswith("CRASHED("):
             chk.fail_input(site_of(v, spec), "does-not-return" if iout[i] == NO_RETURN else "crash", case, exp, iout[i],
-                           ("the call did not return within 150 s of CPU time (run alone)" if i in confirmed else
-                            "the call did not return within its CPU budget (30 s, or 5 s after an earlier case of the stream had not returned); "
-                            "other cases of this run were confirmed alone with 150 s") if iout[i] == NO_RETURN else
+                           ("the call did not return within %d s of CPU time when run alone, or (first-stage budget %d s) another input of the "
+                            "same call form was confirmed so" % (CONFIRM_BUDGET, FIRST_BUDGET)) if iout[i] == NO_RETURN else
                            "the call crashed the harness process")
             continue
         if exp is not None:
